@@ -24,3 +24,30 @@ def matches(finding: dict, pid: str, case, clause: str, ctx: dict) -> bool:
         return bool(fn(finding, pid, case, clause, ctx))
     except Exception:
         return False
+
+
+def _maxblock(grid):
+    out = 1
+    for ax in grid:
+        out *= max(ax) if ax else 0
+    return out
+
+
+@matcher("bound_degree_exceeds_budget")
+def _f05(f, pid, case, clause, ctx):
+    """C15: only steps inserted by _bound_degree (absent from the plan computed without a
+    degree bound) exceed the budget, by at most the recorded factor, under a small degree limit."""
+    if not clause.endswith("step-exceeds-block-budget") or case.get("fn") != "plan_rechunk":
+        return False
+    if case["degree"] > f["params"]["max_degree_limit"]:
+        return False
+    base = case["plan_without_degree_bound"]
+    budget = max(case["limit"] / case["itemsize"], _maxblock(case["old"]), _maxblock(case["new"]))
+    if any(_maxblock(st) > budget for st in base):
+        return False  # the size planner itself broke the budget: not this finding
+    for st in case["out"]["plan"]:
+        mb = _maxblock(st)
+        if mb > budget:
+            if st in base or mb > f["params"]["max_ratio"] * budget:
+                return False
+    return True
